@@ -944,6 +944,17 @@ pub fn check_main(check: &dyn Check, tier: Tier, seed: u64, cases_override: Opti
                         println!("minimised case did not reproduce ({other:?}); unminimised case confirmed");
                         violation_lines.push(format!("VIOLATION property={id} replay={}", path.display()));
                     }
+                    // a violation reproduces, but is classified differently alone than in the batch (e.g. a narrowed
+                    // case takes another path): still a violation, reported under the signature of the replay
+                    Ok(Some((s2, d2))) => {
+                        if let Some(f) = match_open_finding(&findings, id, &s2) {
+                            known_lines.insert(format!("KNOWN-FINDING: property={id} {} [{}]", f.what, f.signature));
+                        } else {
+                            let path = write_replay(check_id, seed, index, &s2, &d2, case);
+                            println!("in a fresh process the case is classified {s2} (batch: {sig}): {d2}");
+                            violation_lines.push(format!("VIOLATION property={id} replay={}", path.display()));
+                        }
+                    }
                     other2 => {
                         harness_errors.push(format!(
                             "violation {sig} (index {index}) did not reproduce in a fresh process: {other2:?}"
